@@ -60,6 +60,17 @@ def edits(compound=False):
 def apply_edit(cfg, ed):
     """Returns (new cfg, set of slots whose effective settings change, kind) or None if the edit does not apply."""
     op, s = ed
+    if op == 'multi':
+        # several sections edited in the same version of the file (one reloadconfig for all of them)
+        c, touched, kinds = cfg, set(), []
+        for sub in s:
+            r_ = apply_edit(c, tuple(sub))
+            if r_ is None:
+                return None
+            c, t_, k_ = r_
+            touched |= t_
+            kinds.append(k_)
+        return c, touched, 'bad' if 'bad' in kinds else ('unbad' if 'unbad' in kinds else 'multi')
     if '&' in op:
         a, b = op.split('&')
         r1 = apply_edit(cfg, (a, s))
@@ -225,6 +236,14 @@ def sequences(shard, tier):
                 if tier != 'quick' and mid is None:
                     for e3 in E:
                         yield seq + [e3]
+        if k == 0:
+            # the version that cannot be loaded ALSO resizes another watcher (that part is applied before the reload
+            # fails); then the whole edit is taken back
+            for t_ in SLOTS:
+                if t_ != s_:
+                    for up, down in (('np+', 'np-'), ('np-', 'np+')):
+                        yield [('multi', ((v, s_), (up, t_))), ('multi', ((v, s_), (down, t_)))]
+                        yield [('toggle', 'c'), ('multi', ((v, s_), (up, t_))), ('multi', ((v, s_), (down, t_)))]
         return
     _, i, j = shard
     for rest in itertools.product(E, repeat=D - 2):
